@@ -133,7 +133,7 @@ package controller
 //@ spec dry(c *Controller, g *NodeGroupState) bool = c.Opts.DryMode || g.Opts.DryMode
 //@ spec gid(g *NodeGroupState) string = g.Opts.CloudProviderGroupName
 // the journal before index n is what it was
-//@ spec jprefix(n int) bool = forall k :: k < n ==> Jkind[k] == old(Jkind)[k] && Jname[k] == old(Jname)[k] && Jok[k] == old(Jok)[k] && Jnode[k] == old(Jnode)[k] && Jnum[k] == old(Jnum)[k] && Jesc[k] == old(Jesc)[k]
+//@ spec jprefix(n int) bool = forall k :: k < n ==> Jkind[k] == old(Jkind)[k] && Jname[k] == old(Jname)[k] && Jok[k] == old(Jok)[k] && Jnode[k] == old(Jnode)[k] && Jnum[k] == old(Jnum)[k] && Jesc[k] == old(Jesc)[k] && Jerr[k] == old(Jerr)[k]
 
 //@ func (*Controller).dryMode(c, nodeGroup) (r)
 //@   requires c != nil && nodeGroup != nil
@@ -339,7 +339,8 @@ package controller
 //@ ghost Jerr [int]iface
 //@ func TryDeleteNodes(c, opts, toBeDeleted) (n, err)
 //@   requires c != nil && opts.nodeGroup != nil && c.Client != nil && c.cloudProvider != nil && nodesOK(toBeDeleted) && k8s.infoMapOK(opts.nodeGroup.NodeInfoMap)
-//@   modifies Jlen, Jkind, Jname, Jnode, Jok
+//@   modifies Jlen, Jkind, Jname, Jnode, Jok, Jerr
+//@   ensures [C19] forall k :: old(Jlen) <= k && k < Jlen && Jkind[k] == C_DELNODE && isNotInGroup(Jerr[k]) ==> isNotInGroup(err)
 //@   ensures Jlen >= old(Jlen) && jprefix(old(Jlen))
 //@   ensures len(toBeDeleted) == 0 ==> Jlen == old(Jlen) && err == nil
 //@   ensures Jlen <= old(Jlen) + 2 * len(toBeDeleted) && (Jlen == old(Jlen) || Jlen >= old(Jlen) + len(toBeDeleted))
@@ -357,7 +358,8 @@ package controller
 //@   requires c != nil && opts.nodeGroup != nil && c.Client != nil && c.cloudProvider != nil && k8s.named(opts.taintedNodes)
 //@   requires k8s.infoMapOK(opts.nodeGroup.NodeInfoMap) && durCacheOK(optsOf(opts.nodeGroup))
 //@   requires [C01,C09,C10,C12] !dry(c, opts.nodeGroup) ==> allT(opts.taintedNodes)
-//@   modifies Jlen, Jkind, Jname, Jnode, Jok, clock, opts.nodeGroup.Opts.softDeleteGracePeriodDuration, opts.nodeGroup.Opts.hardDeleteGracePeriodDuration
+//@   modifies Jlen, Jkind, Jname, Jnode, Jok, Jerr, clock, opts.nodeGroup.Opts.softDeleteGracePeriodDuration, opts.nodeGroup.Opts.hardDeleteGracePeriodDuration
+//@   ensures [C19] forall k :: old(Jlen) <= k && k < Jlen && Jkind[k] == C_DELNODE && isNotInGroup(Jerr[k]) ==> isNotInGroup(err)
 //@   ensures Jlen >= old(Jlen) && jprefix(old(Jlen)) && clock >= old(clock) && durCacheOK(optsOf(opts.nodeGroup))
 //@   ensures [C11] dry(c, opts.nodeGroup) ==> Jlen == old(Jlen)
 //@   ensures forall k :: old(Jlen) <= k && k < Jlen ==> Jkind[k] == C_DELNODE || Jkind[k] == K_DELETE
@@ -376,7 +378,8 @@ package controller
 //@   requires c != nil && opts.nodeGroup != nil && c.Client != nil && c.cloudProvider != nil && k8s.named(opts.forceTaintedNodes)
 //@   requires k8s.infoMapOK(opts.nodeGroup.NodeInfoMap)
 //@   requires [C01,C09,C10,C12] !dry(c, opts.nodeGroup) ==> allF(opts.forceTaintedNodes)
-//@   modifies Jlen, Jkind, Jname, Jnode, Jok
+//@   modifies Jlen, Jkind, Jname, Jnode, Jok, Jerr
+//@   ensures [C19] forall k :: old(Jlen) <= k && k < Jlen && Jkind[k] == C_DELNODE && isNotInGroup(Jerr[k]) ==> isNotInGroup(err)
 //@   ensures Jlen >= old(Jlen) && jprefix(old(Jlen))
 //@   ensures [C11] dry(c, opts.nodeGroup) ==> Jlen == old(Jlen)
 //@   ensures forall k :: old(Jlen) <= k && k < Jlen ==> Jkind[k] == C_DELNODE || Jkind[k] == K_DELETE
@@ -392,7 +395,8 @@ package controller
 //@   requires c != nil && opts.nodeGroup != nil && c.Client != nil && c.cloudProvider != nil && k8s.named(opts.taintedNodes) && k8s.named(opts.untaintedNodes) && opts.nodesDelta >= 0
 //@   requires k8s.infoMapOK(opts.nodeGroup.NodeInfoMap) && durCacheOK(optsOf(opts.nodeGroup))
 //@   requires [C01,C09,C10,C12] !dry(c, opts.nodeGroup) ==> allT(opts.taintedNodes) && allU(opts.untaintedNodes)
-//@   modifies Jlen, Jkind, Jname, Jnode, Jok, Jesc, clock, nTaintOK, nUntaintOK, getSeen, opts.nodeGroup.taintTracker, elems(opts.nodeGroup.taintTracker), opts.nodeGroup.Opts.softDeleteGracePeriodDuration, opts.nodeGroup.Opts.hardDeleteGracePeriodDuration
+//@   modifies Jlen, Jkind, Jname, Jnode, Jok, Jesc, Jerr, clock, nTaintOK, nUntaintOK, getSeen, opts.nodeGroup.taintTracker, elems(opts.nodeGroup.taintTracker), opts.nodeGroup.Opts.softDeleteGracePeriodDuration, opts.nodeGroup.Opts.hardDeleteGracePeriodDuration
+//@   ensures [C19] forall k :: old(Jlen) <= k && k < Jlen && Jkind[k] == C_DELNODE && isNotInGroup(Jerr[k]) ==> isNotInGroup(err)
 //@   ensures Jlen >= old(Jlen) && jprefix(old(Jlen)) && clock >= old(clock) && durCacheOK(optsOf(opts.nodeGroup))
 //@   ensures [C11] dry(c, opts.nodeGroup) ==> Jlen == old(Jlen)
 //@   ensures [C03,C06] nUntaintOK == old(nUntaintOK) && old(nTaintOK) <= nTaintOK && nTaintOK - old(nTaintOK) <= max(0, len(opts.untaintedNodes) - opts.nodeGroup.Opts.MinNodes) && nTaintOK - old(nTaintOK) <= opts.nodesDelta
@@ -520,7 +524,8 @@ package controller
 
 //@ func (*Controller).scaleNodeGroup(c, nodegroup, nodeGroup) (delta, err)
 //@   requires c != nil && c.Client != nil && c.cloudProvider != nil && groupInv(nodeGroup)
-//@   modifies Jlen, Jkind, Jname, Jnode, Jok, Jesc, Jnum, clock, nTaintOK, nUntaintOK, getSeen, LNb, LNo, LNl, LNby, LPb, LPo, LPl
+//@   modifies Jlen, Jkind, Jname, Jnode, Jok, Jesc, Jnum, Jerr, clock, nTaintOK, nUntaintOK, getSeen, LNb, LNo, LNl, LNby, LPb, LPo, LPl
+//@   ensures [C19] forall k :: old(Jlen) <= k && k < Jlen && Jkind[k] == C_DELNODE && isNotInGroup(Jerr[k]) ==> isNotInGroup(err)
 //@   modifies nodeGroup.taintTracker, elems(nodeGroup.taintTracker), nodeGroup.NodeInfoMap, nodeGroup.cpuCapacity, nodeGroup.memCapacity, nodeGroup.lastScaleOut
 //@   modifies nodeGroup.scaleUpLock.isLocked, nodeGroup.scaleUpLock.requestedNodes, nodeGroup.scaleUpLock.lockTime
 //@   modifies nodeGroup.Opts.softDeleteGracePeriodDuration, nodeGroup.Opts.hardDeleteGracePeriodDuration, nodeGroup.Opts.maxNodeAgeDuration
